@@ -14,6 +14,7 @@
    by the correspondence check. Blocking forms and thread interleavings: not proved. *)
 From AL Require Import Base Api OnceApi OnceInv.
 From AL.Tie Require Tie_OnceCell.
+From AL.Sched Require OnceEvSched OnceEvInv OnceEvOrd.
 
 Theorem C08_waiters_finish : forall ops : list oop, N.of_nat (length ops) < ONCE_BOUND ->
   let x := orun ops in quiescent x -> sw0 (o_sh x) = 2 ->
@@ -44,6 +45,34 @@ Proof.
   - split; [|reflexivity]. intro Q. apply (Q 2%nat _ eq_refl). split; reflexivity.
 Qed.
 
+(* ---------- schedule half: every interleaving of atomic actions ---------- *)
+(* The micro-step machine of Sched/OnceEvSched.v cuts initialize_or_wait (get_or_init, get_or_try_init, set) at each
+   atomic action: the load of the state, the compare_exchange, listen(), the poll of the listener, the stores, the
+   notifies, the drop of the local listener on return or when the future is dropped. The closure is abstract (runs any
+   time, Pending any number of times, Ok, Err / panic, or the future is dropped while it runs). Any number of futures;
+   polls start at any time. [gen_once_gn], [gen_once_na] say which machine the source is (read from Gen/Sites.v).
+   For EVERY schedule shorter than 2^64 - 1 actions:
+   (1) hand-over and completion: when nobody is initialising (the cell is empty again after a failed or cancelled
+       initialiser, or it is initialised), no thread is inside a poll or a drop and every future whose waker was called
+       has been polled again, no polled future waits on active_initializers;
+   (2) never stuck: the state is Initializing only while some future is the initialiser. *)
+Theorem C08_sched : forall (sched : list OnceEvSched.act) (nfuts : nat), N.of_nat (length sched) <= OnceEvSched.NMAX ->
+  OnceEvSched.lostb (OnceEvSched.run OnceEvSched.gen_once_gn OnceEvSched.gen_once_na nfuts sched) = false.
+Proof. rewrite OnceEvOrd.once_gn_premise, OnceEvOrd.once_na_premise. exact OnceEvInv.once_sched_no_lost_wakeup. Qed.
+
+Theorem C08_sched_never_stuck : forall (sched : list OnceEvSched.act) (nfuts : nat), N.of_nat (length sched) <= OnceEvSched.NMAX ->
+  OnceEvSched.stuckb (OnceEvSched.run OnceEvSched.gen_once_gn OnceEvSched.gen_once_na nfuts sched) = false.
+Proof. rewrite OnceEvOrd.once_gn_premise, OnceEvOrd.once_na_premise. exact OnceEvInv.once_sched_never_stuck. Qed.
+
+(* teeth: the machine whose guard stores Uninitialized without notify(1) loses the hand-over; with it the parked
+   future is woken and becomes the initialiser *)
+Theorem C08_sched_no_guard_notify_refuted :
+  OnceEvSched.lostb (OnceEvSched.run false true 2 OnceEvSched.handover_schedule) = true.
+Proof. exact OnceEvInv.once_sched_no_guard_notify_refuted. Qed.
+
 Print Assumptions C08_waiters_finish.
 Print Assumptions C08_hand_over.
 Print Assumptions C08_invariant.
+Print Assumptions C08_sched.
+Print Assumptions C08_sched_never_stuck.
+Print Assumptions C08_sched_no_guard_notify_refuted.
